@@ -85,12 +85,12 @@ def step (line : String) : M String := do
     return s!"ok ## L={q'.len} M={q'.mallocLen}"
   | ["ior", id, "read", l] =>
     let q := (w.q.get? (n! id)).getD {}
-    let (q', bs, eof) := ioRead q (n! l)
+    let (q', bs, eof, _) := ioRead q (n! l)
     set { w with q := w.q.insert (n! id) q' }
     return s!"{showRes (.bytes bs)}{if eof then " eof" else ""} ## L={q'.len} M={q'.mallocLen}"
   | ["iow", id, "write", n, seed] =>
     let q := (w.q.get? (n! id)).getD {}
-    let (q', k) := ioWrite q (genBytes (n! seed) (n! n))
+    let (q', k, _) := ioWrite q (genBytes (n! seed) (n! n))
     set { w with q := w.q.insert (n! id) q' }
     return s!"ok n:{k} ## L={q'.len} M={q'.mallocLen}"
   | ["iow", id, "drain", n] =>
